@@ -1,11 +1,23 @@
 """C13 facts: the registration sequences that build a registry, the decision shape of the
-lookup / memo code, and the hierarchy of the builtin target types.
+lookup / memo code, the hierarchy of the builtin target types and probe subclasses of them.
 
 Emits lean/Glom/Generated/C13Facts.lean.  Everything comes from the AST of glom/core.py and
 glom/mutation.py, except the handler *names* of the default registrations, the auto-discovery
-results on the builtin types and the builtin hierarchy, which are read by introspection.
+results, the builtin hierarchy and the probe subclasses (with the answers of a copy of the real
+module registry for them), which are read by introspection.
 An unrecognised shape is reported through P.add and yields an empty table / `false` flag, so the
 Lean obligation `c13_facts_wf` fails.
+
+Shapes are recognised *modulo behaviour-preserving refactoring*:
+  * statement order (validate-then-write in register / register_op, memo reset, raise-before-store in
+    get_handler) by a path-sensitive effect analysis (`_Effects`) that follows calls of private
+    helpers (methods of the class, module-level functions, nested defs, lambdas bound to a name) and
+    binds parameters that alias live registry state;
+  * `_get_closest_type` by a symbolic summary (`_summarise`): local assignments substituted into
+    their uses, nested single-return defs and lambdas inlined, bound variables and parameters renamed
+    canonically -> [(guard, returned expression)];
+  * the remaining statement shapes by unification up to a consistent one-to-one renaming of local
+    names (`_unify`, `_has_stmt`).
 """
 import ast
 import importlib
@@ -21,21 +33,6 @@ def _empty_dict(node):
         return True
     return (isinstance(node, ast.Call) and isinstance(node.func, ast.Name)
             and node.func.id in ('dict', 'OrderedDict') and not node.args and not node.keywords)
-
-
-def _resets_cache(fn):
-    """a top-level `self._type_cache = {}` that follows every loop of the function"""
-    if fn is None:
-        return False
-    last_loop = -1
-    reset_at = -1
-    for i, st in enumerate(fn.body):
-        if isinstance(st, (ast.For, ast.While)):
-            last_loop = i
-        if (isinstance(st, ast.Assign) and len(st.targets) == 1
-                and _is_self_attr(st.targets[0], '_type_cache') and _empty_dict(st.value)):
-            reset_at = i
-    return reset_at > last_loop
 
 
 _STATE = ('_op_type_map', '_op_type_tree', '_type_cache')
@@ -65,130 +62,706 @@ def _root_state(node, aliases):
         return None
 
 
-def _writes_and_raises(fn, P, where):
-    """(ok, early) — ok: every top-level statement of `fn` that writes registry state
-    (`self._op_type_map` / `_op_type_tree` / `_type_cache`, directly, through a local alias of live
-    state, through a mutating method or through `self._register_fuzzy_type`) comes strictly after
-    the last top-level statement that contains a `raise`; the one write tolerated earlier is
-    `….setdefault(key, <empty dict>)`, which creates an empty per-op table (returned in `early`)."""
-    if fn is None:
-        return False, []
-    aliases = {}
-    # aliases are collected over the whole body first (flow-insensitive: a name once bound to live
-    # state is treated as live everywhere)
-    for node in ast.walk(fn):
-        if isinstance(node, ast.Assign) and len(node.targets) == 1 and isinstance(node.targets[0], ast.Name):
-            v = node.value
-            if isinstance(v, ast.Call) and isinstance(v.func, ast.Name) and v.func.id in _FRESH_CALLS:
-                continue
-            root = _root_state(v, aliases)
-            if root:
-                aliases[node.targets[0].id] = root
-    # a second pass for aliases of aliases
-    for node in ast.walk(fn):
-        if isinstance(node, ast.Assign) and len(node.targets) == 1 and isinstance(node.targets[0], ast.Name):
-            v = node.value
-            if isinstance(v, ast.Call) and isinstance(v.func, ast.Name) and v.func.id in _FRESH_CALLS:
-                continue
-            root = _root_state(v, aliases)
-            if root:
-                aliases[node.targets[0].id] = root
-        if isinstance(node, (ast.For, ast.comprehension)):
-            # `for k, sub in alias.items()` – loop variables over live state are live as well
-            it = node.iter
-            if isinstance(it, ast.Call) and isinstance(it.func, ast.Attribute) \
-                    and it.func.attr in ('items', 'values') and _root_state(it.func.value, aliases):
-                for n in ast.walk(node.target):
-                    if isinstance(n, ast.Name):
-                        aliases[n.id] = _root_state(it.func.value, aliases)
+def _collect_aliases(fn, seed=None):
+    """local names bound to objects inside the live registry state (flow-insensitive: a name once
+    bound to live state is treated as live everywhere); `seed`: parameters bound to live state by
+    the caller"""
+    aliases = dict(seed or {})
+    for _pass in range(3):       # aliases of aliases
+        for node in ast.walk(fn):
+            if isinstance(node, ast.Assign) and len(node.targets) == 1 and isinstance(node.targets[0], ast.Name):
+                v = node.value
+                if isinstance(v, ast.Call) and isinstance(v.func, ast.Name) and v.func.id in _FRESH_CALLS:
+                    continue
+                root = _root_state(v, aliases)
+                if root:
+                    aliases[node.targets[0].id] = root
+            if isinstance(node, ast.Assign) and len(node.targets) > 1:
+                # `a = self._op_type_tree[op] = OrderedDict()`: the fresh object is stored into live state
+                roots = [_root_state(t, aliases) for t in node.targets if not isinstance(t, ast.Name)]
+                roots = [r for r in roots if r]
+                if roots:
+                    for t in node.targets:
+                        if isinstance(t, ast.Name):
+                            aliases[t.id] = roots[0]
+            if isinstance(node, (ast.For, ast.comprehension)):
+                # `for k, sub in alias.items()` – loop variables over live state are live as well
+                it = node.iter
+                if isinstance(it, ast.Call) and isinstance(it.func, ast.Attribute) \
+                        and it.func.attr in ('items', 'values') and _root_state(it.func.value, aliases):
+                    for n in ast.walk(node.target):
+                        if isinstance(n, ast.Name):
+                            aliases[n.id] = _root_state(it.func.value, aliases)
+    return aliases
 
-    def empty_default(call):
-        return (len(call.args) == 2 and not call.keywords and _empty_dict(call.args[1]))
 
-    def writes(st):
+class _Effects:
+    """Path-sensitive may-analysis of the order in which a method of TargetRegistry writes the
+    registry's own state (`_op_type_map`, `_op_type_tree`, `_type_cache`), resets the memo, raises and
+    returns.  Calls of other methods of the class (`self._helper(...)`), of functions defined at
+    module level (`_helper(...)`) and of nested defs are *followed* (their bodies are analysed in the
+    caller's state, parameters bound to live state stay live), so that extracting a block into a
+    private helper, renaming locals, reordering independent statements or replacing a lambda by a
+    def leaves the result unchanged.
+
+    abstract state of a path: (wrote, tol, dirty, cwrote)
+       wrote  – line of the first write to `_op_type_map`/`_op_type_tree`/`_type_cache` other than the
+                tolerated `….setdefault(key, <empty dict>)`, or 0
+       tol    – frozenset of tolerated early writes seen
+       dirty  – False: nothing written yet; True: a table / tree was written and the memo was not
+                reset on this path; None: the memo was reset on this path (before or after the writes)
+       cwrote – line of the first store into `_type_cache` (a subscript store), or 0
+    results: raises  – [(line, state)] for every reachable raise,
+             exits   – [(line, state)] for every return / fall-through,
+             n_write, n_reset, n_cstore – how many write / reset / memo-store sites were met."""
+
+    def __init__(self, module_tree, cls_node, P, where):
+        self.module = module_tree
+        self.cls = cls_node
+        self.P = P
+        self.where = where
+        self.raises = []
+        self.exits = []
+        self.write_sites = set()
+        self.reset_sites = set()
+        self.cstore_sites = set()
+        self.raise_sites = set()
+        self.followed = []
+        self.methods = {n.name: n for n in cls_node.body if isinstance(n, ast.FunctionDef)}
+        self.funcs = {n.name: n for n in module_tree.body if isinstance(n, ast.FunctionDef)}
+
+    # -- writes of one simple statement / expression node (not descending into nested defs)
+    def _stores(self, node, aliases):
         out = []
-        for node in ast.walk(st):
-            targets = []
-            if isinstance(node, ast.Assign):
-                targets = node.targets
-            elif isinstance(node, (ast.AugAssign, ast.AnnAssign)):
-                targets = [node.target]
-            elif isinstance(node, ast.Delete):
-                targets = node.targets
-            for tg in targets:
-                for t in (tg.elts if isinstance(tg, (ast.Tuple, ast.List)) else [tg]):
-                    if isinstance(t, ast.Name):
-                        continue           # (re)binding a local name writes nothing
-                    root = _root_state(t, aliases)
-                    if root:
-                        out.append(('store', root, node.lineno))
-            if isinstance(node, ast.Call) and isinstance(node.func, ast.Attribute):
-                f = node.func
-                if f.attr in _MUTATORS and _root_state(f.value, aliases):
-                    kind = 'setdefault-empty' if f.attr == 'setdefault' and empty_default(node) else 'mutate'
-                    out.append((kind, _root_state(f.value, aliases), node.lineno))
-                if isinstance(f.value, ast.Name) and f.value.id == 'self' and f.attr == '_register_fuzzy_type':
-                    out.append(('fuzzy', '_op_type_tree', node.lineno))
+        targets = []
+        if isinstance(node, ast.Assign):
+            targets = node.targets
+        elif isinstance(node, (ast.AugAssign, ast.AnnAssign)):
+            targets = [node.target]
+        elif isinstance(node, ast.Delete):
+            targets = node.targets
+        for tg in targets:
+            for t in (tg.elts if isinstance(tg, (ast.Tuple, ast.List)) else [tg]):
+                if isinstance(t, ast.Name):
+                    continue           # (re)binding a local name writes nothing
+                root = _root_state(t, aliases)
+                if root:
+                    is_reset = (isinstance(node, ast.Assign) and _is_self_attr(t, '_type_cache')
+                                and _empty_dict(node.value))
+                    out.append(('reset' if is_reset else 'store', root, node.lineno,
+                                isinstance(t, ast.Subscript)))
         return out
 
-    last_raise = -1
-    for i, st in enumerate(fn.body):
-        if any(isinstance(n, ast.Raise) for n in ast.walk(st)):
-            last_raise = i
-    ok = True
-    early = []
-    n_late = 0
-    for i, st in enumerate(fn.body):
-        for kind, root, line in writes(st):
-            if i > last_raise:
-                n_late += 1
-            elif kind == 'setdefault-empty':
-                early.append('%s.setdefault(k, <empty>)' % root)
+    def run(self, fn):
+        init = frozenset([(0, frozenset(), False, 0)])
+        aliases = _collect_aliases(fn)
+        out = self._body(fn.body, init, aliases, {}, [fn.name])
+        for st in out:
+            self.exits.append((getattr(fn, 'end_lineno', fn.lineno), st))
+        return self
+
+    # frames: dict with 'brk', 'cont' (sets of states) for the innermost loop, 'ret' for the callee
+    def _body(self, stmts, states, aliases, env, stack, frame=None, trace=None):
+        for st in stmts:
+            if not states:
+                break
+            states = self._stmt(st, states, aliases, env, stack, frame, trace)
+            if trace is not None:
+                trace |= states
+        return states
+
+    def _apply(self, states, f):
+        return frozenset(f(s) for s in states)
+
+    def _write(self, states, kind, root, line, subscript=False):
+        def f(s):
+            wrote, tol, dirty, cwrote = s
+            if kind == 'reset':
+                # `dirty` = a table / tree was written and the memo has not been reset on this path: the
+                # reset may come before or after the writes of the same call (no lookup happens in
+                # between), so a reset makes the rest of the path clean
+                return (wrote or line, tol, None, cwrote)
+            if kind == 'setdefault-empty':
+                return (wrote, tol | {'%s.setdefault(k, <empty>)' % root}, dirty, cwrote)
+            if root == '_type_cache':
+                return (wrote or line, tol, dirty, cwrote or (line if subscript or kind == 'store' else 0))
+            return (wrote or line, tol, dirty if dirty is None else True, cwrote)
+        if kind == 'reset':
+            self.reset_sites.add(line)
+        elif kind != 'setdefault-empty':
+            self.write_sites.add(line)
+            if root == '_type_cache':
+                self.cstore_sites.add(line)
+        return self._apply(states, f)
+
+    def _expr(self, node, states, aliases, env, stack):
+        """effects of evaluating an expression: the calls it contains, innermost first"""
+        if node is None:
+            return states
+        if isinstance(node, (ast.Lambda, ast.FunctionDef)):
+            return states
+        for ch in ast.iter_child_nodes(node):
+            states = self._expr(ch, states, aliases, env, stack)
+        if isinstance(node, ast.Call):
+            states = self._call(node, states, aliases, env, stack)
+        return states
+
+    def _call(self, call, states, aliases, env, stack):
+        f = call.func
+        if isinstance(f, ast.Attribute):
+            if isinstance(f.value, ast.Name) and f.value.id == 'self':
+                if f.attr == '_register_fuzzy_type':
+                    return self._write(states, 'fuzzy', '_op_type_tree', call.lineno)
+                callee = self.methods.get(f.attr)
+                if callee is not None:
+                    return self._follow(callee, call, states, aliases, stack, bound=True)
+                return states
+            if f.attr in _MUTATORS and _root_state(f.value, aliases):
+                root = _root_state(f.value, aliases)
+                empty = (f.attr == 'setdefault' and len(call.args) == 2 and not call.keywords
+                         and _empty_dict(call.args[1]))
+                if f.attr == 'clear' and root == '_type_cache' and _is_self_attr(f.value, '_type_cache'):
+                    return self._write(states, 'reset', root, call.lineno)
+                return self._write(states, 'setdefault-empty' if empty else 'mutate', root, call.lineno)
+            return states
+        if isinstance(f, ast.Name):
+            callee = env.get(f.id) or self.funcs.get(f.id)
+            if callee is not None and not (f.id in aliases):
+                return self._follow(callee, call, states, aliases, stack, bound=False)
+        return states
+
+    def _follow(self, callee, call, states, aliases, stack, bound):
+        if callee.name in stack or len(stack) > 6:
+            return states
+        if callee.name not in self.followed:
+            self.followed.append(callee.name)
+        params = [a.arg for a in callee.args.args]
+        if bound and params and params[0] == 'self':
+            params = params[1:]
+        seed = {}
+        for p, a in zip(params, call.args):
+            r = _root_state(a, aliases)
+            if r:
+                seed[p] = r
+        for k in call.keywords:
+            if k.arg:
+                r = _root_state(k.value, aliases)
+                if r:
+                    seed[k.arg] = r
+        cal = _collect_aliases(callee, seed)
+        frame = {'ret': set()}
+        out = self._body(callee.body, states, cal, {}, stack + [callee.name], frame)
+        return frozenset(out) | frozenset(frame['ret'])
+
+    def _stmt(self, st, states, aliases, env, stack, frame, trace):
+        if isinstance(st, ast.FunctionDef):
+            env[st.name] = st
+            return states
+        if isinstance(st, (ast.ClassDef, ast.Import, ast.ImportFrom, ast.Pass, ast.Global, ast.Nonlocal)):
+            return states
+        if isinstance(st, (ast.Assign, ast.AugAssign, ast.AnnAssign, ast.Delete, ast.Expr)):
+            if isinstance(st, ast.Assign) and isinstance(st.value, ast.Lambda) and len(st.targets) == 1 \
+                    and isinstance(st.targets[0], ast.Name):
+                lam = st.value
+                fd = ast.FunctionDef(name=st.targets[0].id, args=lam.args,
+                                     body=[ast.Return(value=lam.body, lineno=st.lineno, col_offset=0)],
+                                     decorator_list=[], lineno=st.lineno, col_offset=0)
+                env[st.targets[0].id] = fd
+                return states
+            val = getattr(st, 'value', None)
+            states = self._expr(val, states, aliases, env, stack)
+            for tg in (st.targets if isinstance(st, (ast.Assign, ast.Delete)) else
+                       [st.target] if isinstance(st, (ast.AugAssign, ast.AnnAssign)) else []):
+                if not isinstance(tg, ast.Name):
+                    states = self._expr(tg, states, aliases, env, stack)
+            for kind, root, line, sub in self._stores(st, aliases):
+                states = self._write(states, kind, root, line, sub)
+            return states
+        if isinstance(st, ast.Return):
+            states = self._expr(st.value, states, aliases, env, stack)
+            if frame is not None and 'ret' in frame:
+                frame['ret'] |= states
             else:
-                ok = False
-                P.add('%s: line %d writes self.%s (%s) before the last raise of the function'
-                      % (where, line, root, kind))
-    if last_raise < 0 or n_late == 0:
+                for s in states:
+                    self.exits.append((st.lineno, s))
+            return frozenset()
+        if isinstance(st, ast.Raise):
+            states = self._expr(st.exc, states, aliases, env, stack)
+            self.raise_sites.add(st.lineno)
+            for s in states:
+                self.raises.append((st.lineno, s))
+            return frozenset()
+        if isinstance(st, ast.If):
+            states = self._expr(st.test, states, aliases, env, stack)
+            a = self._body(st.body, states, aliases, env, stack, frame, trace)
+            b = self._body(st.orelse, states, aliases, env, stack, frame, trace)
+            return frozenset(a) | frozenset(b)
+        if isinstance(st, (ast.For, ast.While)):
+            states = self._expr(st.iter if isinstance(st, ast.For) else st.test, states, aliases, env, stack)
+            lf = dict(frame or {})
+            lf['brk'] = set()
+            lf['cont'] = set()
+            seen = frozenset(states)
+            cur = seen
+            for _ in range(8):
+                out = self._body(st.body, cur, aliases, env, stack, lf, trace)
+                nxt = frozenset(out) | frozenset(lf['cont'])
+                if isinstance(st, ast.While):
+                    nxt = self._expr(st.test, nxt, aliases, env, stack)
+                if nxt <= seen:
+                    break
+                seen = seen | nxt
+                cur = seen
+            if frame is not None and 'ret' in lf and 'ret' in frame:
+                frame['ret'] |= lf['ret']
+            after = self._body(st.orelse, seen, aliases, env, stack, frame, trace)
+            return frozenset(after) | frozenset(lf['brk'])
+        if isinstance(st, ast.Break):
+            if frame is not None and 'brk' in frame:
+                frame['brk'] |= states
+            return frozenset()
+        if isinstance(st, ast.Continue):
+            if frame is not None and 'cont' in frame:
+                frame['cont'] |= states
+            return frozenset()
+        if isinstance(st, ast.Try):
+            tr = set(states)
+            out = self._body(st.body, states, aliases, env, stack, frame, tr)
+            res = set(self._body(st.orelse, out, aliases, env, stack, frame, trace))
+            for h in st.handlers:
+                res |= set(self._body(h.body, frozenset(tr), aliases, env, stack, frame, trace))
+            res = frozenset(res)
+            if st.finalbody:
+                res = self._body(st.finalbody, res, aliases, env, stack, frame, trace)
+            if trace is not None:
+                trace |= tr
+            return frozenset(res)
+        if isinstance(st, ast.With):
+            for it in st.items:
+                states = self._expr(it.context_expr, states, aliases, env, stack)
+            return self._body(st.body, states, aliases, env, stack, frame, trace)
+        if isinstance(st, ast.Assert):
+            return self._expr(st.test, states, aliases, env, stack)
+        self.P.add('%s: statement kind %s not handled by the effect analysis (line %d)'
+                   % (self.where, type(st).__name__, st.lineno))
+        return states
+
+
+def _writes_and_raises(eff, P, where):
+    """(ok, early, resets) from the effect analysis of `register` / `register_op`:
+    ok     – on no path does a write to the registry's state precede a `raise` (validate first, write
+             afterwards); the one write tolerated earlier is `….setdefault(key, <empty dict>)`, which
+             creates an empty per-op table (returned in `early`);
+    resets – every path that returns after writing a table / tree has reset the memo (before or after
+             those writes: no lookup can happen in between)."""
+    if eff is None:
+        return False, [], False
+    ok = True
+    early = set()
+    said = set()
+
+    def say(msg):
+        if msg not in said:
+            said.add(msg)
+            P.add(msg)
+    for line, (wrote, tol, dirty, cwrote) in eff.raises:
+        early |= set(tol)
+        if wrote:
+            ok = False
+            say('%s: the write at line %d can be followed by the raise at line %d'
+                % (where, wrote, line))
+    if not eff.raises or not eff.write_sites:
         P.add('%s: no raise / no write recognised' % where)
         ok = False
-    return ok, sorted(set(early))
+    resets = bool(eff.exits) and bool(eff.reset_sites)
+    for line, (wrote, tol, dirty, cwrote) in eff.exits:
+        if dirty:
+            resets = False
+            say('%s: a path returning at line %d has written a table / tree without resetting the memo'
+                 % (where, line))
+    return ok, sorted(early), resets
 
 
-def _memo_stores_only_success(fn, P):
-    """get_handler: the memo is read by a membership test; inside the miss branch the statement
-    `if ret is False and raise_exc: raise UnregisteredTarget(...)` precedes the only store
-    `self._type_cache[cache_key] = ret`; outside the miss branch nothing raises and the function
-    returns `self._type_cache[cache_key]`"""
+def _guard_text(test, params):
+    """a raise guard with every local name abstracted: `ret is False and raise_exc` -> `_ is False and
+    raise_exc` (parameters keep their names)"""
+    import copy as _copy
+    t = _copy.deepcopy(test)
+    for n in ast.walk(t):
+        if isinstance(n, ast.Name) and n.id not in params:
+            n.id = '_'
+    return ast.unparse(t)
+
+
+def _memo_shape(fn, eff, P, cls_node):
+    """get_handler (helpers followed) -> (stores_only_success, hit_raises)
+
+    stores_only_success: the memo is read by a membership test `K not in self._type_cache`; inside
+      that miss branch there is exactly one store `self._type_cache[K] = …`, and on no path through
+      the branch does a `raise` follow it (a failed lookup raises *before* the memo write; what is
+      stored under raise_exc=False may be False);
+    hit_raises: after the miss branch the function reads the memo back, `X = self._type_cache[K]`,
+      applies the *same* guard as the miss branch, `if <X is False and raise_exc>: raise …`, and
+      returns `X` (a remembered False is reported like a fresh one).  When the function instead ends
+      with `return self._type_cache[K]` the first fact can still hold and the second is false."""
+    if fn is None or eff is None:
+        return False, False
+    params = {a.arg for a in fn.args.args}
+    body = _strip_doc(fn.body)
+    miss = [st for st in body if isinstance(st, ast.If) and not st.orelse and isinstance(st.test, ast.Compare)
+            and len(st.test.ops) == 1 and isinstance(st.test.ops[0], ast.NotIn)
+            and _is_self_attr(st.test.comparators[0], '_type_cache')]
+    if len(miss) != 1:
+        P.add('get_handler: the memo test `if <key> not in self._type_cache:` was not recognised')
+        return False, False
+    miss = miss[0]
+    key = ast.dump(miss.test.left)
+    stores = [n for n in ast.walk(fn) if isinstance(n, ast.Assign) and len(n.targets) == 1
+              and isinstance(n.targets[0], ast.Subscript) and _is_self_attr(n.targets[0].value, '_type_cache')]
+    store_ok = (len(stores) == 1 and len(eff.cstore_sites) == 1
+                and ast.dump(stores[0].targets[0].slice) == key
+                and any(n is stores[0] for n in ast.walk(miss)))
+    # guards of the raises met in the miss branch (also inside followed helpers)
+    methods = {n.name: n for n in cls_node.body if isinstance(n, ast.FunctionDef)}
+    scopes = [miss] + [methods[n] for n in eff.followed if n in methods]
+    guards = set()
+    inner_raise_lines = set()
+    for sc in scopes:
+        pr = params | ({a.arg for a in sc.args.args} if isinstance(sc, ast.FunctionDef) else set())
+        for n in ast.walk(sc):
+            if isinstance(n, ast.If) and len(n.body) == 1 and isinstance(n.body[0], ast.Raise) and not n.orelse:
+                guards.add(_guard_text(n.test, pr))
+                inner_raise_lines.add(n.body[0].lineno)
+    after = body[body.index(miss) + 1:]
+    hit_raises = False
+    tail_raise_line = None
+    if (len(after) == 1 and isinstance(after[0], ast.Return) and isinstance(after[0].value, ast.Subscript)
+            and _is_self_attr(after[0].value.value, '_type_cache') and ast.dump(after[0].value.slice) == key):
+        tail_ok = True            # the shape before 8b51f6e: a hit returns whatever is stored
+    elif (len(after) == 3 and isinstance(after[0], ast.Assign) and len(after[0].targets) == 1
+            and isinstance(after[0].targets[0], ast.Name) and isinstance(after[0].value, ast.Subscript)
+            and _is_self_attr(after[0].value.value, '_type_cache') and ast.dump(after[0].value.slice) == key
+            and isinstance(after[1], ast.If) and not after[1].orelse and len(after[1].body) == 1
+            and isinstance(after[1].body[0], ast.Raise)
+            and isinstance(after[2], ast.Return) and isinstance(after[2].value, ast.Name)
+            and after[2].value.id == after[0].targets[0].id):
+        g = _guard_text(after[1].test, params)
+        x = after[0].targets[0].id
+        uses_x = any(isinstance(n, ast.Name) and n.id == x for n in ast.walk(after[1].test))
+        tail_ok = True
+        hit_raises = len(guards) == 1 and g in guards and uses_x
+        tail_raise_line = after[1].body[0].lineno
+    else:
+        tail_ok = False
+    # order: no raise of the miss branch can follow the store; the only raise allowed after it is the
+    # tail guard (the same test on the value read back)
+    order_ok = bool(eff.raises)
+    for line, st in eff.raises:
+        if (st[3] or st[0]) and line != tail_raise_line:
+            order_ok = False
+    n_expected = len(inner_raise_lines) + (1 if tail_raise_line else 0)
+    raises_ok = len(inner_raise_lines) == 1 and len(eff.raise_sites) == n_expected
+    no_other_write = eff.write_sites == eff.cstore_sites and not eff.reset_sites
+    ok = store_ok and tail_ok and raises_ok and order_ok and no_other_write
+    if not ok:
+        P.add('get_handler: expected one `raise` (for a failed lookup) in the miss branch that cannot follow '
+              'the single memo store `self._type_cache[key] = …`, then `return self._type_cache[key]` or the '
+              'read-back `x = self._type_cache[key]; if <same guard on x>: raise …; return x` '
+              '(store %s, tail %s, raises %r, order %s, other writes %s)'
+              % (store_ok, tail_ok, sorted(eff.raise_sites), order_ok, not no_other_write))
+    return ok, (ok and hit_raises)
+
+
+def _known_types_ordered(fn, P):
+    """register_op: `known_types` is built as a list that keeps first-occurrence (= registration) order
+    — `list(OrderedDict.fromkeys(<generator over self._op_type_map.values()>))` or `list(dict.fromkeys(…))`
+    — not a set; and the loop that inserts into the type tree iterates that very list (the validation
+    loop may iterate `sorted(known_types, …)`: it only fixes which error is reported first)."""
     if fn is None:
         return False
-    body = [st for st in fn.body if not (isinstance(st, ast.Expr) and isinstance(st.value, ast.Constant))]
-    miss = [st for st in body if isinstance(st, ast.If)
-            and ast.unparse(st.test) == 'cache_key not in self._type_cache' and not st.orelse]
-    if len(miss) != 1:
-        P.add('get_handler: the memo test `if cache_key not in self._type_cache:` was not recognised')
+    la = _locals_of(fn)
+    body = _strip_doc(fn.body)
+    m = None
+    for want in ('known_types = list(OrderedDict.fromkeys((t for m in self._op_type_map.values() for t in m)))',
+                 'known_types = list(OrderedDict.fromkeys((t for m in self._op_type_map.values() for t in m.keys())))',
+                 'known_types = list(dict.fromkeys((t for m in self._op_type_map.values() for t in m)))'):
+        m = _has_stmt(body, want, la)
+        if m is not None:
+            break
+    if m is None:
+        P.add('register_op: known_types is not built as list(OrderedDict.fromkeys(…)) over the per-op tables '
+              '(a set of types iterates in an order that depends on memory addresses)')
         return False
-    miss = miss[0]
-    stores = [n for n in ast.walk(fn) if isinstance(n, (ast.Assign, ast.AugAssign))
-              and any(_root_state(t, {}) == '_type_cache' and not isinstance(t, ast.Name)
-                      for t in (n.targets if isinstance(n, ast.Assign) else [n.target]))]
-    mutators = [n for n in ast.walk(fn) if isinstance(n, ast.Call) and isinstance(n.func, ast.Attribute)
-                and n.func.attr in _MUTATORS and _root_state(n.func.value, {}) == '_type_cache']
-    raise_at = store_at = -1
-    for i, st in enumerate(miss.body):
-        if (isinstance(st, ast.If) and ast.unparse(st.test) == 'ret is False and raise_exc'
-                and len(st.body) == 1 and isinstance(st.body[0], ast.Raise) and not st.orelse):
-            raise_at = i
-        if ast.unparse(st) == 'self._type_cache[cache_key] = ret':
-            store_at = i
-    raises_outside = [n for st in body if st is not miss for n in ast.walk(st) if isinstance(n, ast.Raise)]
-    raises_inside = [n for n in ast.walk(miss) if isinstance(n, ast.Raise)]
-    ret_ok = bool(body) and ast.unparse(body[-1]) == 'return self._type_cache[cache_key]'
-    ok = (0 <= raise_at < store_at and len(stores) == 1 and not mutators and not raises_outside
-          and len(raises_inside) == 1 and ret_ok and store_at == len(miss.body) - 1)
-    if not ok:
-        P.add('get_handler: expected `if ret is False and raise_exc: raise …` before the single memo '
-              'store at the end of the miss branch and `return self._type_cache[cache_key]`')
-    return ok
+    kt = m[1]['known_types']
+    ok = False
+    for n in ast.walk(fn):
+        if isinstance(n, ast.For) and isinstance(n.iter, ast.Name) and n.iter.id == kt:
+            if any(isinstance(c, ast.Call) and isinstance(c.func, ast.Attribute)
+                   and c.func.attr == '_register_fuzzy_type' for c in ast.walk(n)):
+                ok = True
+    fuzzy_loops = [n for n in ast.walk(fn) if isinstance(n, ast.For) and any(
+        isinstance(c, ast.Call) and isinstance(c.func, ast.Attribute) and c.func.attr == '_register_fuzzy_type'
+        for c in ast.walk(n))]
+    if not ok or len(fuzzy_loops) != 1:
+        P.add('register_op: the loop calling _register_fuzzy_type does not iterate known_types itself')
+        return False
+    return True
+
+
+# --------------------------------------------------------------------------- shapes modulo refactoring
+def _strip_doc(body):
+    return [st for st in body if not (isinstance(st, ast.Expr) and isinstance(st.value, ast.Constant)
+                                      and isinstance(st.value.value, str))]
+
+
+def _locals_of(fn):
+    """parameters (except self) and every name bound inside the function"""
+    out = set()
+    for a in fn.args.args + fn.args.kwonlyargs:
+        if a.arg != 'self':
+            out.add(a.arg)
+    for n in ast.walk(fn):
+        if isinstance(n, ast.Name) and isinstance(n.ctx, (ast.Store, ast.Del)):
+            out.add(n.id)
+        elif isinstance(n, (ast.FunctionDef, ast.Lambda)) and n is not fn:
+            if isinstance(n, ast.FunctionDef):
+                out.add(n.name)
+            for a in n.args.args:
+                out.add(a.arg)
+        elif isinstance(n, ast.ExceptHandler) and n.name:
+            out.add(n.name)
+    return out
+
+
+_SKIP_FIELDS = ('type_comment', 'kind', 'type_ignores')
+
+
+def _u(a, b, m, la, lb):
+    if isinstance(a, list) or isinstance(b, list):
+        return (isinstance(a, list) and isinstance(b, list) and len(a) == len(b)
+                and all(_u(x, y, m, la, lb) for x, y in zip(a, b)))
+    if not isinstance(a, ast.AST) or not isinstance(b, ast.AST):
+        return a == b and type(a) is type(b)
+    if type(a) is not type(b):
+        return False
+    if isinstance(a, (ast.Name, ast.arg)):
+        x, y = (a.id, b.id) if isinstance(a, ast.Name) else (a.arg, b.arg)
+        if isinstance(a, ast.Name) and type(a.ctx) is not type(b.ctx):
+            return False
+        if x in la or y in lb:
+            if not (x in la and y in lb):
+                return False
+            if m[0].get(x, y) != y or m[1].get(y, x) != x:
+                return False
+            m[0][x] = y
+            m[1][y] = x
+            return True
+        return x == y
+    if isinstance(a, ast.FunctionDef):
+        # a nested def: its name is a local as well
+        if not _u(ast.Name(id=a.name, ctx=ast.Store()), ast.Name(id=b.name, ctx=ast.Store()), m, la, lb):
+            return False
+        return (_u(a.args, b.args, m, la, lb) and _u(_strip_doc(a.body), _strip_doc(b.body), m, la, lb)
+                and _u(a.decorator_list, b.decorator_list, m, la, lb))
+    for f in a._fields:
+        if f in _SKIP_FIELDS:
+            continue
+        if not _u(getattr(a, f, None), getattr(b, f, None), m, la, lb):
+            return False
+    return True
+
+
+def _unify(a, b, m, la, lb):
+    """are the two ASTs equal up to a consistent, one-to-one renaming of local names?  `m` = (a->b,
+    b->a) is extended only on success"""
+    m2 = (dict(m[0]), dict(m[1]))
+    if _u(a, b, m2, la, lb):
+        m[0].update(m2[0])
+        m[1].update(m2[1])
+        return True
+    return False
+
+
+def _same_modulo_locals(sa, sb, la, lb):
+    m = ({}, {})
+    return len(sa) == len(sb) and all(_unify(x, y, m, la, lb) for x, y in zip(sa, sb))
+
+
+def _has_stmt(stmts, want_src, la, seed=None):
+    """does some statement of `stmts` equal the statement `want_src` up to renaming of locals?
+    (names of `want_src` that are not bound in it are free: they have to match literally)"""
+    want = ast.parse(want_src).body[0]
+    lb = set()
+    for n in ast.walk(want):
+        if isinstance(n, ast.Name) and isinstance(n.ctx, ast.Store):
+            lb.add(n.id)
+    lb |= set((seed or {}).values())
+    for st in stmts:
+        m = (dict(seed or {}), {v: k for k, v in (seed or {}).items()})
+        if _unify(st, want, m, la, lb):
+            return m
+    return None
+
+
+class _Subst(ast.NodeTransformer):
+    """replace free occurrences of the names in `env` by their defining expressions"""
+
+    def __init__(self, env, depth=0):
+        self.env = env
+        self.shadow = []
+        self.depth = depth
+
+    def visit_Name(self, node):
+        if isinstance(node.ctx, ast.Load) and node.id in self.env and not any(node.id in s for s in self.shadow):
+            import copy as _copy
+            val = _copy.deepcopy(self.env[node.id])
+            if isinstance(val, ast.Lambda) and self.depth < 8:
+                # a nested def / lambda sees the enclosing variables as they are when it is called
+                inner = {k: v for k, v in self.env.items() if k != node.id}
+                val = _Subst(inner, self.depth + 1).visit(val)
+            return val
+        return node
+
+    def visit_Lambda(self, node):
+        self.shadow.append({a.arg for a in node.args.args})
+        node.body = self.visit(node.body)
+        self.shadow.pop()
+        return node
+
+    def _comp(self, node, parts):
+        bound = set()
+        for g in node.generators:
+            self.shadow.append(set(bound))
+            g.iter = self.visit(g.iter)
+            self.shadow.pop()
+            for n in ast.walk(g.target):
+                if isinstance(n, ast.Name):
+                    bound.add(n.id)
+            self.shadow.append(set(bound))
+            g.ifs = [self.visit(i) for i in g.ifs]
+            self.shadow.pop()
+        self.shadow.append(bound)
+        for f in parts:
+            setattr(node, f, self.visit(getattr(node, f)))
+        self.shadow.pop()
+        return node
+
+    def visit_ListComp(self, node):
+        return self._comp(node, ['elt'])
+
+    def visit_SetComp(self, node):
+        return self._comp(node, ['elt'])
+
+    def visit_GeneratorExp(self, node):
+        return self._comp(node, ['elt'])
+
+    def visit_DictComp(self, node):
+        return self._comp(node, ['key', 'value'])
+
+
+class _Canon(ast.NodeTransformer):
+    """bound variables (lambda parameters, comprehension targets) get the names b0, b1, … in
+    traversal order"""
+
+    def __init__(self):
+        self.n = 0
+        self.scope = []
+
+    def fresh(self):
+        self.n += 1
+        return 'b%d' % (self.n - 1)
+
+    def visit_Name(self, node):
+        for sc in reversed(self.scope):
+            if node.id in sc:
+                return ast.Name(id=sc[node.id], ctx=node.ctx)
+        return node
+
+    def visit_Lambda(self, node):
+        sc = {a.arg: self.fresh() for a in node.args.args}
+        self.scope.append(sc)
+        node.args = ast.arguments(posonlyargs=[], args=[ast.arg(arg=sc[a.arg]) for a in node.args.args],
+                                  kwonlyargs=[], kw_defaults=[], defaults=[])
+        node.body = self.visit(node.body)
+        self.scope.pop()
+        return node
+
+    def _comp(self, node, parts):
+        sc = {}
+        self.scope.append(sc)
+        for g in node.generators:
+            g.iter = self.visit(g.iter)
+            for n in ast.walk(g.target):
+                if isinstance(n, ast.Name):
+                    sc[n.id] = self.fresh()
+            g.target = self.visit(g.target)
+            g.ifs = [self.visit(i) for i in g.ifs]
+        for f in parts:
+            setattr(node, f, self.visit(getattr(node, f)))
+        self.scope.pop()
+        return node
+
+    visit_ListComp = lambda self, node: self._comp(node, ['elt'])
+    visit_SetComp = lambda self, node: self._comp(node, ['elt'])
+    visit_GeneratorExp = lambda self, node: self._comp(node, ['elt'])
+    visit_DictComp = lambda self, node: self._comp(node, ['key', 'value'])
+
+
+def _canon(node):
+    import copy as _copy
+    return ast.dump(_Canon().visit(_copy.deepcopy(node)))
+
+
+def _canon_expr(src):
+    return _canon(ast.parse(src, mode='eval').body)
+
+
+def _summarise(fn, P, where):
+    """symbolic summary of a loop-free function: [(guard, returned expression)…] as canonical dumps,
+    the last guard being None.  Local assignments are substituted into their uses (so renaming locals
+    or reordering independent assignments changes nothing), nested single-return defs and lambdas are
+    inlined at their uses, parameters are renamed positionally (self, p1, p2, …)."""
+    params = [a.arg for a in fn.args.args]
+    env = {}
+    for i, pn in enumerate(params):
+        if pn != 'self':
+            env[pn] = ast.Name(id='p%d' % i, ctx=ast.Load())
+
+    def sub(e):
+        import copy as _copy
+        return _Subst(env).visit(_copy.deepcopy(e))
+    out = []
+    for st in _strip_doc(fn.body):
+        if isinstance(st, ast.Assign) and len(st.targets) == 1 and isinstance(st.targets[0], ast.Name):
+            env[st.targets[0].id] = sub(st.value) if not isinstance(st.value, ast.Lambda) else st.value
+        elif isinstance(st, ast.FunctionDef):
+            b = _strip_doc(st.body)
+            if len(b) == 1 and isinstance(b[0], ast.Return) and not st.args.defaults and not st.decorator_list:
+                env[st.name] = ast.Lambda(args=st.args, body=b[0].value)
+            else:
+                P.add('%s: nested def %s is not a single return' % (where, st.name))
+                return None
+        elif isinstance(st, ast.If) and not st.orelse and len(st.body) == 1 and isinstance(st.body[0], ast.Return):
+            r = st.body[0].value or ast.Constant(value=None)
+            out.append((_canon(sub(st.test)), _canon(sub(r))))
+        elif isinstance(st, ast.Return):
+            r = st.value or ast.Constant(value=None)
+            out.append((None, sub(r)))
+            break
+        else:
+            P.add('%s: statement not handled by the summary: %s' % (where, ast.unparse(st)[:60]))
+            return None
+    if not out or out[-1][0] is not None:
+        return None
+    return out
+
+
+def _split_min(node):
+    """min(X, key=K) -> (canonical X, canonical K)"""
+    if (isinstance(node, ast.Call) and isinstance(node.func, ast.Name) and node.func.id == 'min'
+            and len(node.args) == 1 and len(node.keywords) == 1 and node.keywords[0].arg == 'key'):
+        return _canon(node.args[0]), _canon(node.keywords[0].value)
+    return None
 
 
 def _reg_op_call(call, P, where):
@@ -297,19 +870,27 @@ def extract(ctx):
             P.add('TargetRegistry.__init__: expected _register_builtin_ops() then '
                   '`if register_default_types: _register_default_types()`, got %r' % seq)
 
-    # ---- memo handling
+    # ---- memo handling; rejected calls: validate first, write afterwards; failed lookups are not
+    #      memoised.  One path-sensitive effect analysis per function, private helpers followed.
     reg_fn = find_def(core_tree, 'register', cls='TargetRegistry')
     regop_fn = find_def(core_tree, 'register_op', cls='TargetRegistry')
+    get_fn = find_def(core_tree, 'get_handler', cls='TargetRegistry')
     if reg_fn is None or regop_fn is None:
         P.add('TargetRegistry.register / register_op not found')
-    register_resets = _resets_cache(reg_fn)
-    register_op_resets = _resets_cache(regop_fn)
 
-    # ---- rejected calls: validate first, write afterwards; failed lookups are not memoised
-    register_two_phase, register_early = _writes_and_raises(reg_fn, P, 'TargetRegistry.register')
-    register_op_two_phase, register_op_early = _writes_and_raises(regop_fn, P, 'TargetRegistry.register_op')
-    memo_only_success = _memo_stores_only_success(
-        find_def(core_tree, 'get_handler', cls='TargetRegistry'), P)
+    def effects(fn, where):
+        if fn is None or cls is None:
+            return None
+        return _Effects(core_tree, cls, P, where).run(fn)
+    reg_eff = effects(reg_fn, 'TargetRegistry.register')
+    regop_eff = effects(regop_fn, 'TargetRegistry.register_op')
+    get_eff = effects(get_fn, 'TargetRegistry.get_handler')
+    register_two_phase, register_early, register_resets = _writes_and_raises(
+        reg_eff, P, 'TargetRegistry.register')
+    register_op_two_phase, register_op_early, register_op_resets = _writes_and_raises(
+        regop_eff, P, 'TargetRegistry.register_op')
+    memo_only_success, memo_hit_raises = _memo_shape(get_fn, get_eff, P, cls)
+    known_types_ordered = _known_types_ordered(regop_fn, P)
 
     # ---- _get_matching_types / _get_closest_type
     picks_min = drops_supers = matching_deepest = False
@@ -317,37 +898,38 @@ def extract(ctx):
     if fn is None:
         P.add('TargetRegistry._get_closest_type not found')
     else:
-        src = [ast.unparse(st) for st in fn.body]
-        starts = bool(src) and src[0] == 'candidates = self._get_matching_types(obj, type_tree)'
-        drops_supers = starts and any(
-            x == 'candidates = [c for c in candidates if not any((o is not c and issubclass(o, c) '
-                 'for o in candidates))]' for x in src)
-        no_loop = not any(isinstance(st, (ast.For, ast.While)) for st in fn.body)
-        min_ret = any(isinstance(st, ast.Return) and isinstance(st.value, ast.Call)
-                      and isinstance(st.value.func, ast.Name) and st.value.func.id == 'min'
-                      and ast.unparse(st.value.args[0]) == 'candidates'
-                      and any(k.arg == 'key' and ast.unparse(k.value) ==
-                              'lambda t: mro.index(t) if t in mro else len(mro)'
-                              for k in st.value.keywords)
-                      for st in fn.body)
-        mro_ok = any(x == 'mro = type(obj).__mro__' for x in src)
-        picks_min = starts and no_loop and min_ret and mro_ok
+        # symbolic summary: straight-line assignments substituted, nested defs / lambdas inlined,
+        # bound variables and parameters renamed canonically -> [(guard, returned expression)]
+        got = _summarise(fn, P, '_get_closest_type')
+        M = 'self._get_matching_types(p1, p2)'
+        C = '[c for c in %s if not any((o is not c and issubclass(o, c) for o in %s))]' % (M, M)
+        MRO = 'type(p1).__mro__'
+        KEY = 'lambda t: %s.index(t) if t in %s else len(%s)' % (MRO, MRO, MRO)
+        want_guard = _canon_expr('not %s' % C)
+        want_none = _canon_expr('None')
+        if got is not None and len(got) == 2:
+            (g0, r0), (_, r1) = got
+            fin = _split_min(r1)
+            drops_supers = (g0 == want_guard and r0 == want_none and fin is not None
+                            and fin[0] == _canon_expr(C))
+            picks_min = (r0 == want_none and fin is not None and fin[1] == _canon_expr(KEY)
+                         and g0 == 'UnaryOp(op=Not(), operand=%s)' % fin[0])
         if not (picks_min and drops_supers):
-            P.add('_get_closest_type: unrecognised shape: %r' % src)
+            P.add('_get_closest_type: unrecognised shape: %r' % [ast.unparse(st) for st in _strip_doc(fn.body)])
     fn = find_def(core_tree, '_get_matching_types', cls='TargetRegistry')
     if fn is None:
         P.add('TargetRegistry._get_matching_types not found')
     else:
-        body = [st for st in fn.body if not (isinstance(st, ast.Expr) and isinstance(st.value, ast.Constant))]
-        src = [ast.unparse(st) for st in body]
-        want = ['ret = []',
-                'for cur_type, sub_tree in type_tree.items():\n'
-                '    if isinstance(obj, cur_type):\n'
-                '        ret.extend(self._get_matching_types(obj, sub_tree) or [cur_type])',
-                'return ret']
-        matching_deepest = src == want
+        want = ('def _get_matching_types(self, obj, type_tree):\n'
+                '    ret = []\n'
+                '    for cur_type, sub_tree in type_tree.items():\n'
+                '        if isinstance(obj, cur_type):\n'
+                '            ret.extend(self._get_matching_types(obj, sub_tree) or [cur_type])\n'
+                '    return ret\n')
+        matching_deepest = _same_modulo_locals(_strip_doc(fn.body), ast.parse(want).body[0].body,
+                                               _locals_of(fn), _locals_of(ast.parse(want).body[0]))
         if not matching_deepest:
-            P.add('_get_matching_types: unrecognised shape: %r' % src)
+            P.add('_get_matching_types: unrecognised shape: %r' % [ast.unparse(st) for st in _strip_doc(fn.body)])
 
     # ---- _register_fuzzy_type: the final guard
     fuzzy_guard = False
@@ -355,32 +937,67 @@ def extract(ctx):
     if fn is None:
         P.add('TargetRegistry._register_fuzzy_type not found')
     else:
-        ifs = [st for st in fn.body if isinstance(st, ast.If)]
-        fuzzy_guard = any(ast.unparse(st.test) == 'not registered and new_type not in _type_tree'
-                          and [ast.unparse(x) for x in st.body] == ['_type_tree[new_type] = OrderedDict()']
-                          for st in ifs)
+        la = _locals_of(fn)
+        want_fn = ast.parse('def f(self, op, new_type, _type_tree=None):\n'
+                            '    registered = False\n'
+                            '    for cur_type, sub_tree in list(_type_tree.items()):\n'
+                            '        pass\n'
+                            '    if not registered and new_type not in _type_tree:\n'
+                            '        _type_tree[new_type] = OrderedDict()\n'
+                            '    return _type_tree\n').body[0]
+        lb = _locals_of(want_fn)
+        want_init, want_loop, want_if, want_ret = want_fn.body
         loops = [st for st in fn.body if isinstance(st, ast.For)]
-        loop_ok = len(loops) == 1 and ast.unparse(loops[0].iter) == 'list(_type_tree.items())'
+        m = ({}, {})
+        # the parameters keep their positions
+        for a, b in zip(fn.args.args, want_fn.args.args):
+            m[0][a.arg] = b.arg
+            m[1][b.arg] = a.arg
+        loop_ok = (len(loops) == 1 and _unify(loops[0].iter, want_loop.iter, m, la, lb)
+                   and _unify(loops[0].target, want_loop.target, m, la, lb))
+        body = _strip_doc(fn.body)
+        after = body[body.index(loops[0]) + 1:] if loop_ok else []
+        before = body[:body.index(loops[0])] if loop_ok else []
+        fuzzy_guard = (loop_ok and len(after) == 2
+                       and any(_unify(st, want_init, m, la, lb) for st in before)
+                       and _unify(after[0], want_if, m, la, lb) and _unify(after[1], want_ret, m, la, lb))
         if not loop_ok:
             P.add('_register_fuzzy_type: the snapshot loop was not recognised')
-            fuzzy_guard = False
+        elif not fuzzy_guard:
+            P.add('_register_fuzzy_type: the final guard `if not registered and new_type not in _type_tree` '
+                  'was not recognised')
 
     # ---- Glommer: its own registry, which learns the ops of the registry it is created from;
-    #      register / glom delegate to it
+    #      register / glom delegate to it (statements compared up to renaming of locals)
     glommer_own = glommer_copies = False
     fn = find_def(core_tree, '__init__', cls='Glommer')
     if fn is None:
         P.add('Glommer.__init__ not found')
     else:
-        src = [ast.unparse(st) for st in fn.body]
-        glommer_own = ('registry = TargetRegistry(register_default_types=register_default_types)' in src
-                       and 'self.scope[TargetRegistry] = registry' in src
-                       and 'self.scope = ChainMap(dict(scope))' in src)
-        want_loop = ('if base_registry is not None:\n'
-                     '    for op_name, auto_func in base_registry._op_auto_map.items():\n'
-                     '        if op_name not in registry._op_auto_map:\n'
-                     '            registry.register_op(op_name, auto_func=auto_func)')
-        glommer_copies = ('base_registry = scope.get(TargetRegistry)' in src and want_loop in src)
+        la = _locals_of(fn)
+        body = _strip_doc(fn.body)
+        # the two keyword arguments (whatever the locals holding them are called)
+        k1 = _has_stmt(body, "register_default_types = kwargs.pop('register_default_types', True)", la - {'kwargs'})
+        k2 = _has_stmt(body, "scope = kwargs.pop('scope', _DEFAULT_SCOPE)", la - {'kwargs'})
+        seed0 = {}
+        for k in (k1, k2):
+            if k is not None:
+                seed0.update(k[0])
+        la0 = la if (k1 is not None and k2 is not None) else la - {'register_default_types', 'scope'}
+        m = _has_stmt(body, 'registry = TargetRegistry(register_default_types=register_default_types)', la0, seed0)
+        glommer_own = (m is not None
+                       and _has_stmt(body, 'self.scope[TargetRegistry] = registry', la0, m[0]) is not None
+                       and _has_stmt(body, 'self.scope = ChainMap(dict(scope))', la0, seed0) is not None)
+        mb = _has_stmt(body, 'base_registry = scope.get(TargetRegistry)', la0, seed0)
+        la = la0
+        if m is not None and mb is not None:
+            seed = dict(m[0])
+            seed.update(mb[0])
+            want_loop = ('if base_registry is not None:\n'
+                         '    for op_name, auto_func in base_registry._op_auto_map.items():\n'
+                         '        if op_name not in registry._op_auto_map:\n'
+                         '            registry.register_op(op_name, auto_func=auto_func)')
+            glommer_copies = _has_stmt(body, want_loop, la, seed) is not None
     fn = find_def(core_tree, 'register', cls='Glommer')
     glommer_delegates = fn is not None and any(
         'self.scope[TargetRegistry].register(target_type' in ast.unparse(st) for st in fn.body)
@@ -414,7 +1031,21 @@ def extract(ctx):
     if len(set(names)) != len(names):
         P.add('builtin hierarchy: duplicate class names %r' % names)
     mro = [(t.__name__, [k.__name__ for k in t.__mro__]) for t in types]
-    sub = [(c.__name__, d.__name__) for c in types for d in types if issubclass(c, d)]
+
+    def _issub(c, d):
+        try:
+            return bool(issubclass(c, d))
+        except Exception as e:
+            P.add('issubclass(%s, %s) raised %r' % (c.__name__, d.__name__, e))
+            return False
+
+    def _isinst(x, c):
+        try:
+            return bool(isinstance(x, c))
+        except Exception as e:
+            P.add('isinstance(<%s>, %s) raised %r' % (type(x).__name__, c.__name__, e))
+            return False
+    sub = [(c.__name__, d.__name__) for c in types for d in types if _issub(c, d)]
     inst = []
     for t in types:
         try:
@@ -424,8 +1055,19 @@ def extract(ctx):
         if type(x) is not t:
             continue
         for c in types:
-            if isinstance(x, c):
+            if _isinst(x, c):
                 inst.append((t.__name__, c.__name__))
+    # what glom's two duck types are *meant* to answer on these types, stated independently of
+    # glom's code: iterable but not a string / an instance that has a __dict__ with keys
+    has_iter = [t.__name__ for t in types if callable(getattr(t, '__iter__', None))]
+    has_dict = []
+    for t in types:
+        try:
+            x = None if t is type(None) else t()
+        except Exception:
+            continue
+        if hasattr(x, '__dict__') and hasattr(x.__dict__, 'keys'):
+            has_dict.append(t.__name__)
     # auto-discovery results on these types
     fresh = core.TargetRegistry(register_default_types=False)
     autos = dict(fresh._op_auto_map)
@@ -442,6 +1084,49 @@ def extract(ctx):
                 P.add('auto function of %s raised on %s: %r' % (op, t.__name__, e))
         auto_tab.append(('auto_' + op, rows))
 
+    # ---- probe subclasses of the builtin target types (one with a __dict__, one with __slots__ = ()
+    #      each): what the interpreter and glom's auto-discovery functions answer for them
+    probes, probe_mro, probe_sub, probe_inst = [], [], [], []
+    probe_auto = {name: [] for name, _ in auto_tab}
+    for b in [dict, list, tuple, str, object]:
+        for slots in (False, True):
+            name = ('SubS_' if slots else 'Sub_') + b.__name__
+            try:
+                pc = type(name, (b,), {'__slots__': ()} if slots else {})
+                x = pc()
+            except Exception as e:
+                P.add('probe subclass %s cannot be built: %r' % (name, e))
+                continue
+            uni = types + [pc]
+            probes.append((name, b.__name__, hasattr(x, '__dict__')))
+            probe_mro.append((name, [k.__name__ for k in pc.__mro__]))
+            probe_sub += [(name, d.__name__) for d in uni if _issub(pc, d)]
+            probe_inst += [(name, d.__name__) for d in uni if _isinst(x, d)]
+            for op, f in autos.items():
+                try:
+                    probe_auto['auto_' + op].append((name, hname(f(pc))))
+                except Exception as e:
+                    P.add('auto function of %s raised on %s: %r' % (op, name, e))
+    probe_auto_tab = [(f, probe_auto[f]) for f, _ in auto_tab]
+    # … and what the module-level registry (a copy) answers for an instance of each probe and of its base
+    import copy as _copy
+    probe_answers = []
+    try:
+        reg_copy = _copy.deepcopy(modreg)
+        reg_copy._type_cache = {}
+        env_types = {t.__name__: t for t in types}
+        for name, bname, _hd in probes:
+            for tname, tcls in ((name, None), (bname, env_types.get(bname))):
+                if tcls is None:
+                    tcls = type(name, (env_types[bname],), {'__slots__': ()} if name.startswith('SubS_') else {})
+                for op in ('get', 'iterate', 'keys', 'assign', 'delete'):
+                    row = (tname, op, hname(reg_copy.get_handler(op, tcls(), raise_exc=False)))
+                    if row not in probe_answers:
+                        probe_answers.append(row)
+    except Exception as e:
+        P.add('probe lookups on a copy of the module registry failed: %r' % (e,))
+        probe_answers = []
+
     defs = [
         ('c13BuiltinOps', 'List (String × String × Bool)', builtin_ops),
         ('c13Defaults', 'List (String × Bool × List (String × String))', defaults),
@@ -455,6 +1140,8 @@ def extract(ctx):
         ('c13RegisterEarlyWrites', 'List String', register_early),
         ('c13RegisterOpEarlyWrites', 'List String', register_op_early),
         ('c13MemoStoresOnlySuccess', 'Bool', bool(memo_only_success)),
+        ('c13MemoHitRaises', 'Bool', bool(memo_hit_raises)),
+        ('c13KnownTypesOrdered', 'Bool', bool(known_types_ordered)),
         ('c13ClosestPicksMin', 'Bool', bool(picks_min)),
         ('c13ClosestDropsSupers', 'Bool', bool(drops_supers)),
         ('c13MatchingDeepest', 'Bool', bool(matching_deepest)),
@@ -469,6 +1156,14 @@ def extract(ctx):
         ('c13Sub', 'List (String × String)', sub),
         ('c13Inst', 'List (String × String)', inst),
         ('c13Auto', 'List (String × List (String × String))', auto_tab),
+        ('c13Probes', 'List (String × String × Bool)', probes),
+        ('c13ProbeMro', 'List (String × List String)', probe_mro),
+        ('c13ProbeSub', 'List (String × String)', probe_sub),
+        ('c13ProbeInst', 'List (String × String)', probe_inst),
+        ('c13ProbeAuto', 'List (String × List (String × String))', probe_auto_tab),
+        ('c13ProbeAnswers', 'List (String × String × String)', probe_answers),
+        ('c13HasIter', 'List String', has_iter),
+        ('c13HasDict', 'List String', has_dict),
     ]
     return [('C13Facts',
              'registration sequences, memo/lookup decision shape, builtin hierarchy (C13)', defs)]
